@@ -117,6 +117,8 @@ def buildCandidate (pre post : Heap) : List (Nat × Nat) :=
 
 /-! ## the validator -/
 
+def hx (n : Nat) : String := String.ofList (Nat.toDigits 16 n)
+
 /-- first failing condition of `verifyMap`, for the report (not used by the proofs) -/
 def explain (pre post : Heap) (φ : List (Nat × Nat)) : String :=
   if !distinct (φ.map Prod.fst) then "renaming is not a function (an object would have two images)"
@@ -128,24 +130,24 @@ def explain (pre post : Heap) (φ : List (Nat × Nat)) : String :=
     | some i =>
       let r := pre.roots[i]!
       let r' := post.roots[i]!
-      s!"root slot {i} not preserved: before base={r.base} off={r.off}, after base={r'.base} off={r'.off}"
+      s!"root slot {i} not preserved: before base={hx r.base} off={r.off}, after base={hx r'.base} off={r'.off}"
     | none => "roots not preserved"
   else
     match φ.find? (fun ab => !pairOk pre post φ ab) with
     | some (a, b) =>
       match pre.find a, post.find b with
       | some oa, some ob =>
-        if oa.shape != ob.shape then s!"object {a} -> {b}: shape differs ({oa.shape} / {ob.shape})"
-        else if oa.size != ob.size then s!"object {a} -> {b}: size differs ({oa.size} / {ob.size})"
-        else if oa.hash != ob.hash then s!"object {a} -> {b}: payload changed (hash {oa.hash} / {ob.hash})"
+        if oa.shape != ob.shape then s!"object {hx a} -> {hx b}: shape differs ({oa.shape} / {ob.shape})"
+        else if oa.size != ob.size then s!"object {hx a} -> {hx b}: size differs ({oa.size} / {ob.size})"
+        else if oa.hash != ob.hash then s!"object {hx a} -> {hx b}: payload changed (hash {oa.hash} / {ob.hash})"
         else if oa.refs.length != ob.refs.length then
-          s!"object {a} -> {b}: number of reference fields differs ({oa.refs.length} / {ob.refs.length})"
+          s!"object {hx a} -> {hx b}: number of reference fields differs ({oa.refs.length} / {ob.refs.length})"
         else
           match (oa.refs.zip ob.refs).findIdx? (fun cc => !refOk φ cc.1 cc.2) with
-          | some j => s!"object {a} -> {b}: reference field {j} not preserved ({oa.refs[j]!} / {ob.refs[j]!})"
-          | none => s!"object {a} -> {b}: inconsistent"
-      | none, _ => s!"object {a} is referenced before the collection but has no record"
-      | _, none => s!"object {b} (image of {a}) is referenced after the collection but has no record: reachable object lost"
+          | some j => s!"object {hx a} -> {hx b}: reference field {j} not preserved ({hx oa.refs[j]!} / {hx ob.refs[j]!})"
+          | none => s!"object {hx a} -> {hx b}: inconsistent"
+      | none, _ => s!"object {hx a} is referenced before the collection but has no record"
+      | _, none => s!"object {hx b} (image of {hx a}) is referenced after the collection but has no record: reachable object lost"
     | none => "ok"
 
 /-- Accept iff the candidate renaming passes the verification step. -/
